@@ -10,7 +10,7 @@ relative-error bound is used), hence for `rebalance = rebalanceWith f32`.
                  of `s * clusterWeight` for one scale `s`, and `s * clusterWeight ≤ 256 / r^7`;
 * `float_range'` `0 ≤ w ≤ 256`;
 * `float_order'` (needs `SmallLcm`: `256 * lcm < 2^24`) the strict order clause;
-* `float_share_weak'` the share clause with bound `ratio q * (1 + 1/1024)`;
+* `float_share_weak'` the share clause (Spec bound `ratio q * (1 + 1/1024)`);
 * `float_near_exact'` each written weight is within one unit of the exact-arithmetic one.
 -/
 namespace HapVerif.C16
@@ -159,9 +159,9 @@ theorem near15_abs {x y : Rat} (hx : 0 ≤ x) (h : Near 15 x y) : |y - x| ≤ 1 
       mul_le_mul_of_nonneg_right h.2 (by norm_num)
     linarith
 
-/-- E3 `f32_share` in the form that the error bound supports: the Spec inequality with
-`ratio q` replaced by `ratio q * (1 + 1/1024)`.  (The strict clause is FALSE for `f32`,
-see `share_counterexample` in Props/C16.) -/
+/-- E3 `f32_share`: the Spec clause, bound `ratio q * (1 + 1/1024)` = one unit of integer
+rounding + float error.  (The bound of exactly one unit is FALSE for `f32`, see
+`strict_unit_share_fails` in Props/C16.) -/
 theorem float_share_weak' (R : Rounding rnd) (h : WFIn cls initial) :
     ∀ p ∈ live cls (rebalanceWith rnd cls initial), ∀ q ∈ live cls (rebalanceWith rnd cls initial),
       0 < ratio p.1 → ratio p.1 ≤ ratio q.1 →
